@@ -8,7 +8,7 @@ from __future__ import annotations
 
 import re
 
-from vf.gen import gprog, glinear
+from vf.gen import ggeneric, glinear, gprog
 
 LEVEL = "exploration"
 LEVEL_TEXT = ("Random program generation (classical G-prog profile, linear/qubit profile, generic and "
@@ -20,8 +20,11 @@ LEVEL_NOTE = ("Trusted: the HUGR validators shipped with hugr-py 0.18.6 and sele
               "the bool lowering (V2).")
 TECHNIQUE = "generated programs through the real compiler, output judged by the real HUGR validator (two registries)"
 RULE = ("profiles: G-prog classical (see C03), G-linear (qubits/arrays of qubits/structs with qubit "
-        "fields through branches and loops, owned+borrowed params), G-generic (type/nat/comptime "
-        "params). Only programs accepted by check() count. distinct = distinct statement-kind "
+        "fields through branches and loops, owned+borrowed params), G-generic (functions over type "
+        "variables of all four copy/drop bounds, plain / in generic structs / in tuples, nat-sized "
+        "arrays, comptime parameters; values kept alive, copied, moved, swapped, repacked, rebound "
+        "and dropped across branches and loops whose successors need different live sets; compiled "
+        "polymorphically and through concrete instantiating callers). Only programs accepted by check() count. distinct = distinct statement-kind "
         "sequences; non-trivial = has a branch or loop")
 FLOORS = {"validated_functions": 20}
 
@@ -108,10 +111,13 @@ def run_case(ctx, rng, idx, params, tier):
         prog = gprog.generate(rng)
         text, fp, prof = prog.text(), (prog.fingerprint() if prog.nontrivial() else None), "classical"
         names = [f.name for f in prog.g.funcs] + ["main"]
-    else:
+    elif k == 1:
         text, fp, _fn = glinear.generate(rng, accept_only=True)
         prof = "linear"
         names = ["main"]
+    else:
+        text, fp, names = ggeneric.generate(rng)
+        prof = "generic"
     rec = judge_text(ctx, text, fp, names)
     rec.setdefault("counters", {})[f"profile_{prof}"] = 1
     if idx < 3 and rec["status"] in ("held", "violated"):
